@@ -659,14 +659,15 @@ def segment(text, train_text=None, grammar_file=None, category='Colloc0',
 
     # setup ignore_first_parses and make sure ignore_first_parses <=
     # niterations
+    niterations = 2000  # the default values fixed in C++
+    interval = 1
     if '-n' in args:
-        nparses = int(re.sub(r'^.*\-n *([0-9]+).*$', r'\g<1>', args))
-        if '-x' in args:
-            interval = int(re.sub(r'^.*\-x *([0-9]+).*$', r'\g<1>', args))
-            nparses = int(nparses / interval)
-        nparses += 1  # include the initial one (independant of iterations)
-    else:
-        nparses = 2000 + 1  # the default value fixed in C++
+        niterations = int(re.sub(r'^.*\-n *([0-9]+).*$', r'\g<1>', args))
+    if '-x' in args:
+        interval = int(re.sub(r'^.*\-x *([0-9]+).*$', r'\g<1>', args))
+    # the program outputs a parse at each iteration i in [0, niterations)
+    # such that i % interval == 0, and a final one at the end
+    nparses = len(range(0, niterations, interval)) + 1
     if ignore_first_parses < 0:
         ignore_first_parses = max(0, nparses + ignore_first_parses)
     if ignore_first_parses >= nparses:
